@@ -292,7 +292,7 @@ func runE2E(c *core.Ctx) {
 			c.Violate(cause, what, det(it, obs, nil))
 		}
 	}
-	c.Sample(map[string]any{"args": strings.Join(args, " "), "sheet": sh.Text, "reads": len(items), "records_main": len(mainRecs), "records_unidentified": len(unidRecs)})
+	c.Sample(map[string]any{"args": strings.Join(args, " "), "sheet": sheetShown(sh), "reads": len(items), "records_main": len(mainRecs), "records_unidentified": len(unidRecs)})
 	c.Count("evaluations", evals)
 	c.Count("e2e_reads_judged_by_construction", judged)
 	c.Count("e2e_runs_"+mode, 1)
